@@ -28,11 +28,12 @@ import (
 )
 
 const (
-	anonBase = 100000 // ids of anonymous boxes
-	pageID   = 200000 // id of the page box (+ page index)
-	textBase = 300000 // id of the text box of element k = textBase + k
-	unknown  = 900000 // events whose colour names no element
-	marginK  = 900    // element number standing for the @top-center margin box
+	anonBase  = 100000 // ids of anonymous boxes
+	pageID    = 200000 // id of the page box (+ page index)
+	textBase  = 300000 // id of the text box of element k = textBase + k
+	unknown   = 900000 // events whose colour names no element
+	marginK   = 900    // element number standing for the @top-center margin box
+	wideEvery = 25     // one document in wideEvery comes from genWideDocument
 )
 
 // ------------------------------------------------------------------ projection
@@ -239,6 +240,11 @@ func (a *abox) tags(t map[string]bool) {
 		t["overflow"] = true
 		if !pos {
 			t["static-overflow"] = true
+		}
+		// not a stacking context for CSS (positioned with an integer z-index, opacity, transform):
+		// the construct of known finding C16/overflow-forms-stacking-context (Check/C16.v noncss_clip)
+		if !(pos && !zauto) && a.Flags&(8|16) == 0 {
+			t["overflow-not-css-ctx"] = true
 		}
 	}
 	switch a.Kind {
@@ -673,6 +679,11 @@ func main() {
 	rng := vlib.NewRng(vlib.Seed())
 	for len(jobs) < *n {
 		r := rng.Fork()
+		if len(jobs)%wideEvery == wideEvery-1 { // stream of wide stacking contexts (gen.go)
+			d := genWideDocument(r)
+			jobs = append(jobs, job{html: d.HTML, tags: d.Tags, kind: "gen"})
+			continue
+		}
 		size := r.Range(3, 12)
 		if r.Chance(1, 4) {
 			size = r.Range(12, 40)
